@@ -641,6 +641,45 @@ class Interp:
         # index projections (tables) are read-only here
         ps = place['p']
         for n, pe in enumerate(ps):
+            if pe['k'] in ('constindex', 'subslice'):
+                # slice / array patterns: `[first, ..]`, `[.., last]`, `[a, b]`, `[head, rest @ ..]`
+                base = {'l': place['l'], 'p': ps[:n]}
+                arr = self.read_place(st, frame, base)
+                if isinstance(arr, RefV):
+                    arr = self.deref(st, arr)
+                from .models import _elem_value
+                if pe['k'] == 'constindex':
+                    off = pe['offset']
+                    if isinstance(arr, ArrV) and arr.items is not None:
+                        i = len(arr.items) - off if pe.get('from_end') else off
+                        if not 0 <= i < len(arr.items):
+                            raise InterpError('constant index %d outside the array pattern' % i)
+                        v = arr.items[i]
+                    elif isinstance(arr, ArrV) and arr.table:
+                        tb = self.facts.tables.get(arr.table) or []
+                        i = len(tb) - off if pe.get('from_end') else off
+                        v = Num(t_tbl(arr.table, Poly.const(i), st.ctx), 'f32')
+                    elif isinstance(arr, ContV) and (arr.len is not None or not pe.get('from_end')):
+                        idx = (arr.len - off) if pe.get('from_end') else Poly.const(off)
+                        v = _elem_value(self, st, arr, idx)
+                    else:
+                        raise InterpError('constant index into %r' % (arr,))
+                else:
+                    fr_, to_ = pe['from'], pe['to']
+                    if isinstance(arr, ArrV) and arr.items is not None:
+                        hi = len(arr.items) - to_ if pe.get('from_end') else to_
+                        v = ArrV(items=arr.items[fr_:hi])
+                    elif isinstance(arr, ContV) and arr.len is not None:
+                        ln = (arr.len - fr_ - to_) if pe.get('from_end') else Poly.const(to_ - fr_)
+                        v = ContV('slice', ('from', arr.term, Poly.const(fr_)) if fr_ else arr.term, length=ln, elem_ty=arr.elem_ty, extra={})
+                    else:
+                        raise InterpError('subslice of %r' % (arr,))
+                rest = ps[n + 1:]
+                if not rest:
+                    return v
+                if len(rest) == 1 and rest[0]['k'] == 'deref' and isinstance(v, RefV):
+                    return self.deref(st, v)
+                raise InterpError('projection after a slice pattern element')
             if pe['k'] == 'index':
                 base = {'l': place['l'], 'p': ps[:n]}
                 arr = self.read_place(st, frame, base)
@@ -678,6 +717,10 @@ class Interp:
             frame.locals[l] = st.new_cell(None)
         cell = frame.locals[l]
         proj = []
+        if any(pe['k'] in ('constindex', 'subslice') for pe in place['p']) and not mut:
+            # a shared borrow of a slice-pattern element / tail (`[.., last]`, `[first, rest @ ..]`): a reference to a
+            # snapshot of that element (sound for shared borrows: nothing can write through them)
+            return RefV(st.new_cell(self.read_place(st, frame, place)))
         for pe in place['p']:
             k = pe['k']
             if k == 'deref':
@@ -1109,6 +1152,10 @@ class Interp:
                 tgt = self.deref(st, a) if isinstance(a, RefV) else a
                 if isinstance(tgt, ContV) and tgt.len is not None:
                     return Num(tgt.len, 'usize')
+                if isinstance(tgt, ArrV) and tgt.items is not None:
+                    return Num(Poly.const(len(tgt.items)), 'usize')
+                if isinstance(tgt, ArrV) and tgt.table and tgt.table in self.facts.tables:
+                    return Num(Poly.const(len(self.facts.tables[tgt.table])), 'usize')
                 return self.opaque_result(st, {'k': 'uint', 'n': 'usize'}, 'ptrmeta')
             raise InterpError('unop %s' % op)
         if k == 'cast':
@@ -2031,6 +2078,36 @@ class Interp:
             if m is not None:
                 self.stats['modelled'] += 1
                 self.models_used.add(path)
+                a0 = args[0] if args else None
+                if isinstance(a0, RefV):
+                    try:
+                        a0 = self.deref(st, a0)
+                    except InterpError:
+                        a0 = None
+                if isinstance(a0, EnumV) and a0.variant is None and a0.path in ('core::option::Option', 'core::result::Result') \
+                        and path.startswith(('core::option::Option', 'core::result::Result')):
+                    # the combinators are modelled per variant: an Option whose variant the state does not know is split
+                    succs = []
+                    for vi in (a0.possible if a0.possible is not None else [0, 1]):
+                        s2 = st.fork()
+                        f2 = s2.frames[-1]
+                        a2 = [self.operand(s2, f2, a) for a in t['args']]
+                        e2 = self.deref(s2, a2[0]) if isinstance(a2[0], RefV) else a2[0]
+                        if isinstance(e2, EnumV) and e2.variant is None:
+                            self.refine_enum(s2, e2, vi)
+                            e2.variant, e2.possible = vi, None
+                        if isinstance(e2, EnumV) and vi not in e2.payload:
+                            # payload the state never looked at: a fresh value of the type argument
+                            tys = [g['ty'] for g in (ga or []) if isinstance(g, dict) and 'ty' in g]
+                            is_opt = e2.path.endswith('Option')
+                            fty = (tys[0] if tys else None) if (is_opt or vi == 0) else (tys[1] if len(tys) > 1 else None)
+                            if is_opt and vi == 0:
+                                e2.payload[0] = []
+                            elif isinstance(fty, dict):
+                                e2.payload[vi] = [self.sym_value(s2, self.subst_ty(fty, f2.genv), s2.fresh_name('payload'))]
+                        r = self.finish_model(s2, f2, t, m(self, s2, f2, t, a2, ga))
+                        succs += r if r else [s2]
+                    return succs
                 out = m(self, st, fr, t, args, ga)
                 return self.finish_model(st, fr, t, out)
         import re as _re
